@@ -428,6 +428,17 @@ class StreamResponse(
         headers.setdefault(hdrs.SERVER, SERVER_SOFTWARE)
 
         # connection header
+        if hdrs.CONNECTION in headers:
+            # A header set by the handler must not contradict what the
+            # protocol is going to do with the connection.
+            tokens = {
+                t.strip().lower() for t in headers[hdrs.CONNECTION].split(",")
+            }
+            if "close" in tokens:
+                # RFC 9112 section 9.6: a server that sends "close" MUST close
+                keep_alive = self._keep_alive = False
+            elif "keep-alive" in tokens and not keep_alive:
+                del headers[hdrs.CONNECTION]
         if hdrs.CONNECTION not in headers:
             if keep_alive:
                 if version == HttpVersion10:
